@@ -57,6 +57,14 @@ PRELUDES = [
      ["lookup", 0, "CBlocks", ["name", "B"]], ["lookup", 1, "CDataArrays", ["name", "d"]], ["lookup", 1, "CMultiTags", ["name", "m"]],
      ["lookup_link", 2, "LSources", ["pos", 1]], ["lookup_link", 3, "LSources", ["pos", 0]],
      ["parent", 4, "PParent"], ["parent", 5, "PParent"], ["parent", 5, "PBlock"]],
+    # a bushy source tree: sibling subtrees of different depth under one top-level source and a second top-level source;
+    # the parent of EVERY source asked (a search for the parent that gives up on the later siblings answers None)
+    [["create", 0, "CBlocks", "B", "t", []], ["create", 1, "CSources", "top", "t", []], ["create", 2, "CSources", "a", "t", []],
+     ["create", 3, "CSources", "a1", "t", []], ["create", 4, "CSources", "a2", "t", []], ["create", 2, "CSources", "b", "t", []],
+     ["create", 6, "CSources", "b1", "t", []], ["create", 7, "CSources", "b2", "t", []], ["create", 2, "CSources", "c", "t", []],
+     ["create", 1, "CSources", "top2", "t", []], ["create", 10, "CSources", "x", "t", []], ["create", 11, "CSources", "y", "t", []],
+     ["create", 3, "CSources", "a3", "t", []], ["create", 9, "CSources", "c1", "t", []]] +
+    [["parent", h, "PParent"] for h in range(2, 15)] + [["parent", 8, "PBlock"], ["parent", 14, "PBlock"]],
 ]
 PROFILE = {"small_names": True, "preludes": PRELUDES, "prelude_prob": 0.5,
            "weights": {"create": 12, "find": 8, "parent": 7, "referring": 6, "set_link": 5, "append": 5, "lookup": 4,
